@@ -135,6 +135,21 @@ func getEndOfLastValuePositionInFile(fname string, startPos int64) (int64, error
 	}
 }
 
+// followStartOver discards the local log and the dataset built from it, so
+// that the leader's log can be applied from position zero. Whatever this
+// server held before FOLLOW has nothing in common with the leader.
+func (s *Server) followStartOver() (pos int64, err error) {
+	fname := s.aof.Name()
+	s.aof.Close()
+	s.aof, err = os.Create(fname)
+	if err != nil {
+		log.Fatalf("could not recreate aof, possible data loss. %s", err.Error())
+		return 0, err
+	}
+	s.reset()
+	return 0, nil
+}
+
 // followCheckSome is not a full checksum. It just "checks some" data.
 // We will do some various checksums on the leader until we find the correct position to start at.
 func (s *Server) followCheckSome(addr string, followc int, auth string,
@@ -148,7 +163,9 @@ func (s *Server) followCheckSome(addr string, followc int, auth string,
 		return 0, errNoLongerFollowing
 	}
 	if s.aofsz < checksumsz {
-		return 0, nil
+		// Too small to compare with the leader. Start over from the
+		// beginning of the leader's log, with an empty local log and dataset.
+		return s.followStartOver()
 	}
 
 	conn, err := DialTimeout(addr, time.Second*2)
@@ -194,13 +211,7 @@ func (s *Server) followCheckSome(addr string, followc int, auth string,
 	fullpos := pos
 	fname := s.aof.Name()
 	if pos == 0 {
-		s.aof.Close()
-		s.aof, err = os.Create(fname)
-		if err != nil {
-			log.Fatalf("could not recreate aof, possible data loss. %s", err.Error())
-			return 0, err
-		}
-		return 0, nil
+		return s.followStartOver()
 	}
 
 	// we want to truncate at a command location
